@@ -8,12 +8,18 @@
 (* Thread pc: "top" (d.before_request) -> "reading" (blocked in the header *)
 (* read) -> "handling" (inside the handler) -> "replied" (d.after_request) *)
 (* -> "top" ...; on an error "final" (d.before_final_shutdown) -> "exited". *)
+(* With a peer that floods the daemon with requests and never reads the    *)
+(* answers (PeerSends = "flood") the thread ends up blocked in the write   *)
+(* of a reply ("writing"); only the socket being shut down (or the peer    *)
+(* going away) gets it out of there.  In that scenario the shutdown        *)
+(* callers act once the thread is blocked.                                 *)
 (***************************************************************************)
 EXTENDS Integers, Sequences, FiniteSets, TLC
 
 CONSTANTS Callers,     \* set of shutdown callers, e.g. 1..2
           PeerSends,   \* what the peer has put on the socket: "nothing" | "part_hdr" | "hdr_only" | "full" (a complete
-                       \* request without reply) | "full_reply" (a complete request that has a reply)
+                       \* request without reply) | "full_reply" (a complete request that has a reply) | "flood" (requests
+                       \* with replies without end, none of the replies is ever read)
           PeerCloses   \* does the peer close its end (after sending that)?
 
 VARIABLES tpc, err, flag, sock, cpc, peerOpen, consumed, sched
@@ -24,10 +30,11 @@ Init == /\ tpc = "top" /\ err = "none" /\ flag = FALSE /\ sock = "open"
 
 Cmd(c) == sched' = Append(sched, c)
 EndOfStream == sock = "shut" \/ ~peerOpen
-Pending == IF consumed THEN "nothing" ELSE PeerSends
+Flood == PeerSends = "flood"
+Pending == IF Flood THEN "full_reply" ELSE IF consumed THEN "nothing" ELSE PeerSends
 
 \* ---- shutdown callers --------------------------------------------------------------------
-Store(c) == /\ cpc[c] = "start" /\ flag' = TRUE /\ cpc' = [cpc EXCEPT ![c] = "flagged"] /\ Cmd(<<"store", c>>)
+Store(c) == /\ cpc[c] = "start" /\ (Flood => tpc \in {"writing", "final", "exited"}) /\ flag' = TRUE /\ cpc' = [cpc EXCEPT ![c] = "flagged"] /\ Cmd(<<"store", c>>)
             /\ UNCHANGED <<tpc, err, sock, peerOpen, consumed>>
 Shut(c) == /\ cpc[c] = "flagged" /\ sock' = "shut" /\ cpc' = [cpc EXCEPT ![c] = "done"] /\ Cmd(<<"shut", c>>)
            /\ UNCHANGED <<tpc, err, flag, peerOpen, consumed>>
@@ -50,14 +57,18 @@ ReadDone ==
 
 \* the handler returns and the reply, if the request has one, is written (fails on a shut socket)
 Reply == /\ tpc = "handling"
-         /\ IF PeerSends = "full_reply" /\ (sock = "shut" \/ ~peerOpen) THEN tpc' = "final" /\ err' = "SocketBroken" ELSE tpc' = "replied" /\ UNCHANGED err
+         /\ IF Flood THEN tpc' = "writing" /\ UNCHANGED err
+            ELSE IF PeerSends = "full_reply" /\ (sock = "shut" \/ ~peerOpen) THEN tpc' = "final" /\ err' = "SocketBroken" ELSE tpc' = "replied" /\ UNCHANGED err
          /\ Cmd(<<"handler_return", 0>>)
          /\ UNCHANGED <<flag, sock, cpc, peerOpen, consumed>>
+\* the blocked write of a reply fails once the socket has been shut down or the peer is gone
+WriteDone == /\ tpc = "writing" /\ EndOfStream /\ tpc' = "final" /\ err' = "SocketBroken"
+             /\ UNCHANGED <<flag, sock, cpc, peerOpen, consumed, sched>>
 Loop == /\ tpc = "replied" /\ tpc' = "top" /\ Cmd(<<"t", 0>>) /\ UNCHANGED <<err, flag, sock, cpc, peerOpen, consumed>>
 Final == /\ tpc = "final" /\ tpc' = "exited" /\ sock' = "shut" /\ Cmd(<<"t", 0>>) /\ UNCHANGED <<err, flag, cpc, peerOpen, consumed>>
 
-Next == (\E c \in Callers : Store(c) \/ Shut(c)) \/ PeerClose \/ Enter \/ ReadDone \/ Reply \/ Loop \/ Final
-Spec == Init /\ [][Next]_vars /\ WF_vars(Enter \/ ReadDone \/ Reply \/ Loop \/ Final) /\ \A c \in Callers : WF_vars(Store(c) \/ Shut(c))
+Next == (\E c \in Callers : Store(c) \/ Shut(c)) \/ PeerClose \/ Enter \/ ReadDone \/ Reply \/ WriteDone \/ Loop \/ Final
+Spec == Init /\ [][Next]_vars /\ WF_vars(Enter \/ ReadDone \/ Reply \/ WriteDone \/ Loop \/ Final) /\ \A c \in Callers : WF_vars(Store(c) \/ Shut(c))
 
 \* ---- wait() -----------------------------------------------------------------------------------
 WaitResult == IF err \in {"none", "SocketBroken"} \/ flag THEN "Ok" ELSE "Err"
